@@ -40,6 +40,7 @@ inductive Err
   | assertion      -- AssertionError
   | valueError     -- ValueError("could not classify domain")
   | indexError     -- IndexError
+  | keyError       -- KeyError
 deriving DecidableEq, Repr
 
 /-- `classify`: the first key of CLASSIFICATIONS (dict order) whose set contains the name -/
